@@ -1,0 +1,13 @@
+# Verification hooks.  Inactive unless the environment variable
+# SIGTOOLS_VERIF=1 is set when sigtools is first imported AND a tracer has been
+# installed by the verification harness; nothing in sigtools depends on them.
+import os
+
+enabled = os.environ.get('SIGTOOLS_VERIF') == '1'
+tracer = None
+
+
+def emit(event, **fields):
+    t = tracer
+    if t is not None:
+        t(event, fields)
